@@ -27,8 +27,14 @@
 //! `Zonefile::load`, with `allow_invalid`) returns the same thing, except
 //! that it may continue where the strict reader reported "different class".
 
+use bytes::Bytes;
+use domain::base::iana::Class;
+use domain::base::name::FlattenInto;
+use domain::base::Name;
 use domain::zonefile::inplace::{Entry, Zonefile};
-use domain::zonetree::parsed;
+use domain::zonetree::error::{RecordError, ZoneErrors};
+use domain::zonetree::types::StoredRecord;
+use domain::zonetree::{parsed, ZoneBuilder};
 use mc::*;
 use rayon::prelude::*;
 use serde_json::{json, Value};
@@ -63,7 +69,9 @@ fn entry_repr(e: &Entry) -> Vec<u8> {
             v
         }
         Entry::Include { path, origin } => {
-            let mut v = vec![b'I'];
+            // 'U': the returned string is not valid UTF-8 (scan_string builds
+            // it with from_utf8_unchecked)
+            let mut v = vec![if std::str::from_utf8(path.as_bytes()).is_ok() { b'I' } else { b'U' }];
             v.extend_from_slice(path.as_bytes());
             v.push(0);
             match origin {
@@ -80,8 +88,17 @@ fn entry_repr(e: &Entry) -> Vec<u8> {
 
 fn read_all(mut z: Zonefile, max_entries: usize) -> Outcome {
     let mut entries = Vec::new();
+    let mut last_offset = z.current_offset();
     loop {
-        match z.next_entry() {
+        let r = z.next_entry();
+        // current_offset: "how many bytes have been read so far" never goes
+        // backwards; recorded as a pseudo entry so that every oracle sees it
+        let off = z.current_offset();
+        if off < last_offset {
+            entries.push(format!("O current_offset went back from {last_offset} to {off}").into_bytes());
+        }
+        last_offset = off;
+        match r {
             Ok(Some(e)) => {
                 entries.push(entry_repr(&e));
                 if entries.len() > max_entries {
@@ -98,9 +115,57 @@ fn reader_a(bytes: &[u8]) -> Zonefile {
     Zonefile::from(bytes)
 }
 
+fn apex_z() -> Name<Bytes> {
+    Name::from_octets(Bytes::from_static(b"\x01z\x00")).expect("z. is a name")
+}
+
+/// Reader configured through the API instead of directives:
+/// 0 = nothing, 1 = `set_origin(z.)`, 2 = `set_origin(z.)` + `set_default_class(IN)`.
+fn reader_setup(bytes: &[u8], setup: usize) -> Zonefile {
+    let mut z = Zonefile::from(bytes);
+    if setup >= 1 {
+        z.set_origin(apex_z());
+    }
+    if setup >= 2 {
+        z.set_default_class(Class::IN);
+    }
+    z
+}
+
+/// The second reader is built through one of the other construction paths
+/// (chosen by a hash of the input, so every path sees a quarter of every
+/// space): `load`, `default` + `reserve` + two `extend_from_slice`,
+/// `From<&str>` (when the input is UTF-8), `new` + `BufMut::put_slice`.
 fn reader_b(bytes: &[u8]) -> Zonefile {
-    let mut rd = bytes;
-    Zonefile::load(&mut rd).expect("reading from a slice cannot fail").allow_invalid()
+    use bytes::BufMut;
+    let z = match fnv(bytes) % 4 {
+        0 => {
+            let mut rd = bytes;
+            Zonefile::load(&mut rd).expect("reading from a slice cannot fail")
+        }
+        1 => {
+            let mut z = Zonefile::default();
+            z.reserve(bytes.len());
+            let (a, b) = bytes.split_at(bytes.len() / 2);
+            z.extend_from_slice(a);
+            z.extend_from_slice(b);
+            z
+        }
+        2 => match std::str::from_utf8(bytes) {
+            Ok(s) => Zonefile::from(s),
+            Err(_) => {
+                let mut z = Zonefile::with_capacity(0);
+                z.extend_from_slice(bytes);
+                z
+            }
+        },
+        _ => {
+            let mut z = Zonefile::new();
+            z.put_slice(bytes);
+            z
+        }
+    };
+    z.allow_invalid()
 }
 
 /// "12:3: message: context" -> (12, 3, "message")
@@ -222,6 +287,14 @@ fn examine(bytes: &[u8], with_parsed: bool) -> Exam {
     }
     if viol.is_none() {
         for e in &a.entries {
+            if e[0] == b'U' {
+                viol = Some(("entry-invalid|include path is not valid UTF-#".into(), format!("the path of a returned $INCLUDE entry is not valid UTF-8: {}", hex(&e[1..]))));
+                break;
+            }
+            if e[0] == b'O' {
+                viol = Some(("current-offset|went backwards".into(), String::from_utf8_lossy(&e[2..]).to_string()));
+                break;
+            }
             if e[0] == b'R' {
                 if let Err(why) = split_record(&e[1..]) {
                     viol = Some((format!("entry-invalid|{}", digits_to_hash(&why)), format!("returned record is not a well-formed wire record: {why}")));
@@ -275,8 +348,15 @@ const TOKENS: [&str; 26] = [
 /// Context prefixes.  0..3 are used by both totality spaces; 3 and 4 end
 /// inside a record so that short byte strings become TXT character strings
 /// and a domain name in RDATA (the in-place conversions); bytes space only.
-const PREFIXES: [&str; 5] = ["", "$ORIGIN z.\n", "$ORIGIN z.\na IN 60 A 1.2.3.4\n", "$ORIGIN z.\na IN 60 TXT ", "$ORIGIN z.\na IN 60 MX 1 "];
-const PREFIX_ENTRIES: [usize; 5] = [0, 0, 1, 0, 0];
+const PREFIXES: [&str; 6] =
+    ["", "$ORIGIN z.\n", "$ORIGIN z.\na IN 60 A 1.2.3.4\n", "$ORIGIN z.\na IN 60 TXT ", "$ORIGIN z.\na IN 60 MX 1 ", "$ORIGIN z.\n$INCLUDE "];
+const PREFIX_ENTRIES: [usize; 6] = [0, 0, 1, 0, 0, 0];
+
+/// Second byte alphabet: octets above 0x7F (the lead and continuation
+/// octets of a 2-, a 3- and a 4-octet UTF-8 sequence: C3 A9, E2 82 80,
+/// F0 9F 98 80; FF is never valid), the digits for decimal escapes around 255
+/// (\\225 \\255 \\256 \\265 ...), and the characters that delimit tokens.
+const ALPHA8: &[u8; 17] = b"a \n\"\\256\xC3\xA9\xE2\x82\xF0\x9F\x98\x80\xFF";
 
 fn render_tokens(prefix: usize, toks: &[u8]) -> Vec<u8> {
     let mut v = PREFIXES[prefix].as_bytes().to_vec();
@@ -437,8 +517,8 @@ fn totality_case(sh: &Shared, part: &str, prefix: usize, items: &[u8], with_pars
 
 const CHUNK: u64 = 4096;
 
-fn totality_space(sh: &Shared, part: &str, alphabet: usize, max_len: usize, parsed_len: usize, prefixes: std::ops::Range<usize>) {
-    for prefix in prefixes {
+fn totality_space(sh: &Shared, part: &str, symbols: Option<&'static [u8]>, alphabet: usize, max_len: usize, parsed_len: usize, prefixes: &[usize]) {
+    for &prefix in prefixes {
         for len in 0..=max_len {
             let total = pow(alphabet, len);
             let chunks = total.div_ceil(CHUNK);
@@ -453,7 +533,10 @@ fn totality_space(sh: &Shared, part: &str, alphabet: usize, max_len: usize, pars
                     let mut kk = k;
                     for _ in 0..len {
                         let d = (kk % alphabet as u64) as u8;
-                        items.push(if part == "tokens" { d } else { ALPHA[d as usize] });
+                        items.push(match symbols {
+                            None => d,
+                            Some(a) => a[d as usize],
+                        });
                         kk /= alphabet as u64;
                     }
                     totality_case(sh, part, prefix, &items, len <= parsed_len, &mut l);
@@ -479,6 +562,13 @@ enum Kind {
     Unk,
     /// MX whose exchange is the origin itself: `z.` versus a free standing `@`.
     MxO,
+    /// NSEC: a name followed by a type bitmap (`continues`, `octets_builder`).
+    Nsec,
+    /// NSEC3: salt and next hashed owner are read with `convert_token`.
+    Nsec3,
+    /// SVCB: parameters are read with `scan_svcb_octets` / `has_space`;
+    /// values plain or quoted (RFC 9460 2.1).
+    Svcb,
     /// `$INCLUDE f a.z.` (an entry, not a record): path plain / quoted /
     /// escaped, origin argument relative / absolute.
     Incl,
@@ -494,6 +584,9 @@ impl Kind {
             Kind::Unk => "TYPE65280",
             Kind::MxO => "MX-origin",
             Kind::Incl => "$INCLUDE",
+            Kind::Nsec => "NSEC",
+            Kind::Nsec3 => "NSEC3",
+            Kind::Svcb => "SVCB",
         }
     }
     fn rtype(self) -> u16 {
@@ -504,6 +597,9 @@ impl Kind {
             Kind::Mx | Kind::MxO => 15,
             Kind::Unk => 65280,
             Kind::Incl => 0,
+            Kind::Nsec => 47,
+            Kind::Nsec3 => 50,
+            Kind::Svcb => 64,
         }
     }
     fn mnemonic(self) -> &'static str {
@@ -514,6 +610,9 @@ impl Kind {
             Kind::Mx | Kind::MxO => "MX",
             Kind::Unk => "TYPE65280",
             Kind::Incl => "$INCLUDE",
+            Kind::Nsec => "NSEC",
+            Kind::Nsec3 => "NSEC3",
+            Kind::Svcb => "SVCB",
         }
     }
     fn forms(self) -> usize {
@@ -525,6 +624,9 @@ impl Kind {
             Kind::Unk => 2,
             Kind::MxO => 2,
             Kind::Incl => 6,
+            Kind::Nsec => 2,
+            Kind::Nsec3 => 2,
+            Kind::Svcb => 2,
         }
     }
 }
@@ -571,6 +673,26 @@ fn rdata_wire(k: Kind) -> Vec<u8> {
         }
         Kind::Unk => vec![0xab, 0xcd],
         Kind::Incl => Vec::new(),
+        Kind::Nsec => {
+            // next name a.z., types A (1) and TXT (16): window 0, 3 octets
+            let mut v = name_wire(&["a", "z"]);
+            v.extend_from_slice(&[0, 3, 0x40, 0x00, 0x80]);
+            v
+        }
+        Kind::Nsec3 => {
+            // SHA-1, flags 0, 10 iterations, salt ab, 20 zero octets of hash, type A
+            let mut v = vec![1, 0, 0, 10, 1, 0xab, 20];
+            v.extend_from_slice(&[0u8; 20]);
+            v.extend_from_slice(&[0, 1, 0x40]);
+            v
+        }
+        Kind::Svcb => {
+            // priority 1, target m.z., alpn=h2 (key 1), port=443 (key 3)
+            let mut v = vec![0, 1];
+            v.extend(name_wire(&["m", "z"]));
+            v.extend_from_slice(&[0, 1, 0, 3, 2, b'h', b'2', 0, 3, 0, 2, 0x01, 0xbb]);
+            v
+        }
     }
 }
 
@@ -635,6 +757,21 @@ fn data_tokens(k: Kind, f: usize, origin: &[&str], rel: bool) -> Vec<String> {
             },
         ],
         Kind::Incl => vec![["f", "\"f\"", "\\f"][f % 3].to_string(), nm(&["a", "z"], f / 3 == 1)],
+        Kind::Nsec => vec![nm(&["a", "z"], rel || f == 1), "A".into(), "TXT".into()],
+        Kind::Nsec3 => vec![
+            "1".into(),
+            "0".into(),
+            "10".into(),
+            ["ab", "AB"][f].into(),
+            "00000000000000000000000000000000".into(),
+            "A".into(),
+        ],
+        Kind::Svcb => vec![
+            "1".into(),
+            nm(&["m", "z"], rel),
+            ["alpn=h2", "alpn=\"h2\""][f].into(),
+            ["port=443", "port=\"443\""][f].into(),
+        ],
         Kind::MxO => vec!["10".into(), if f == 1 && origin == ["z"] { "@".into() } else { "z.".into() }],
         Kind::Unk => {
             if f == 0 {
@@ -866,8 +1003,12 @@ struct Rendering {
 
 /// Outcome class of a layout case: None = as expected.
 fn layout_verdict(text: &str, expected: &[Vec<u8>]) -> Option<(String, String)> {
+    layout_verdict_setup(text, expected, 0)
+}
+
+fn layout_verdict_setup(text: &str, expected: &[Vec<u8>], setup: usize) -> Option<(String, String)> {
     let bytes = text.as_bytes();
-    let out = match guard(|| read_all(reader_a(bytes), bytes.len() + 2)) {
+    let out = match guard(|| read_all(reader_setup(bytes, setup), bytes.len() + 2)) {
         Ok(o) => o,
         Err(p) => return Some((format!("panic:{}", norm_panic(&p)), format!("reader panicked: {p}"))),
     };
@@ -928,7 +1069,7 @@ fn layout_verdict(text: &str, expected: &[Vec<u8>]) -> Option<(String, String)> 
 
 const L1_SIZES: [usize; 8] = [2, 5, 5, 6, 3, 41, 9, 3];
 const L1_SLOTS: [&str; 8] = ["dollar-ttl", "owner", "class-ttl", "data-form", "separator", "continuation", "line-end", "sentinel"];
-const L1_KINDS: [Kind; 7] = [Kind::A, Kind::Txt, Kind::Soa, Kind::Mx, Kind::Unk, Kind::MxO, Kind::Incl];
+const L1_KINDS: [Kind; 10] = [Kind::A, Kind::Txt, Kind::Soa, Kind::Mx, Kind::Unk, Kind::MxO, Kind::Incl, Kind::Nsec, Kind::Nsec3, Kind::Svcb];
 
 /// File: `$ORIGIN z.` [`$TTL 60`] context-record R [sentinel].  The context
 /// record has R's owner, class IN and TTL 60 stated explicitly, so that
@@ -1140,10 +1281,22 @@ fn l2_chunk(rec: &LRec, c: &[usize; 5], origin: &Labels) -> Option<String> {
     Some(text)
 }
 
-fn l2_render(file: &[LRec], choices: &[[usize; 5]]) -> Option<Rendering> {
+const SETUP_NAMES: [&str; 3] = ["origin-directive", "set_origin", "set_origin+set_default_class"];
+
+/// Reference state and text at the start of an L2 file for a setup: the
+/// origin comes from a `$ORIGIN z.` line or from `set_origin`; with
+/// `set_default_class(IN)` an omitted class is IN from the first record on.
+fn l2_start(setup: usize) -> (RefState, String) {
     let mut st = RefState::default();
+    if setup == 2 {
+        st.last_class = Some(1);
+    }
+    (st, if setup == 0 { "$ORIGIN z.\n".to_string() } else { String::new() })
+}
+
+fn l2_render(file: &[LRec], choices: &[[usize; 5]], setup: usize) -> Option<Rendering> {
+    let (mut st, mut text) = l2_start(setup);
     let mut origin: Labels = vec!["z"];
-    let mut text = String::from("$ORIGIN z.\n");
     let mut expected = Vec::new();
     let mut slots = Vec::new();
     for (i, (rec, c)) in file.iter().zip(choices).enumerate() {
@@ -1248,8 +1401,17 @@ fn l1_report(sh: &Shared, owner_i: usize, kind: Kind, c: &[usize], class: &str, 
     );
 }
 
-fn l2_report(sh: &Shared, file: &[LRec], ch: &[[usize; 5]], class: &str, what: &str) {
+fn l2_report(sh: &Shared, file: &[LRec], ch: &[[usize; 5]], setup: usize, class: &str, what: &str) {
     let mut cur = ch.to_vec();
+    // the API setup is part of the signature only if the directive form does not fail alike
+    let mut setup = setup;
+    if setup != 0 {
+        if let Some(r) = l2_render(file, &cur, 0) {
+            if layout_verdict_setup(&r.text, &r.expected, 0).map(|v| v.0).as_deref() == Some(class) {
+                setup = 0;
+            }
+        }
+    }
     loop {
         let mut changed = false;
         for i in (0..cur.len()).rev() {
@@ -1260,8 +1422,8 @@ fn l2_report(sh: &Shared, file: &[LRec], ch: &[[usize; 5]], class: &str, what: &
                 for v in 0..cur[i][s] {
                     let mut t = cur.clone();
                     t[i][s] = v;
-                    if let Some(r) = l2_render(file, &t) {
-                        if layout_verdict(&r.text, &r.expected).map(|v| v.0).as_deref() == Some(class) {
+                    if let Some(r) = l2_render(file, &t, setup) {
+                        if layout_verdict_setup(&r.text, &r.expected, setup).map(|v| v.0).as_deref() == Some(class) {
                             cur = t;
                             changed = true;
                             break;
@@ -1274,13 +1436,13 @@ fn l2_report(sh: &Shared, file: &[LRec], ch: &[[usize; 5]], class: &str, what: &
             break;
         }
     }
-    let rmin = l2_render(file, &cur).unwrap();
-    let r = l2_render(file, ch).unwrap();
+    let rmin = l2_render(file, &cur, setup).unwrap();
+    let r = l2_render(file, ch, setup).unwrap();
     // Signature: the record at which the reader's result first departs
     // from the logical file, its kind and its remaining non-canonical
     // slots; the preceding record's slots when it has none of its own;
     // $TTL placement only for TTL differences.
-    let out = guard(|| read_all(reader_a(rmin.text.as_bytes()), rmin.text.len() + 2)).ok();
+    let out = guard(|| read_all(reader_setup(rmin.text.as_bytes(), setup), rmin.text.len() + 2)).ok();
     let at = out
         .map(|o| {
             let mut k = 0;
@@ -1320,6 +1482,9 @@ fn l2_report(sh: &Shared, file: &[LRec], ch: &[[usize; 5]], class: &str, what: &
     } else {
         file[at].kind.name()
     };
+    if setup != 0 {
+        parts.push(format!("setup={}", SETUP_NAMES[setup]));
+    }
     let sig = format!("C07|layout|L2|kind={kind}|{}|{class}", parts.join(","));
     if !first_in_thread(&sig) {
         return;
@@ -1328,7 +1493,7 @@ fn l2_report(sh: &Shared, file: &[LRec], ch: &[[usize; 5]], class: &str, what: &
         &sig,
         &format!("{what}; minimal rendering {:?}", rmin.text),
         json!({"part": "layout", "text": r.text, "expected_hex": r.expected.iter().map(|e| hex(e)).collect::<Vec<_>>(),
-               "minimal_text": rmin.text, "space": "L2",
+               "minimal_text": rmin.text, "space": "L2", "setup": setup,
                "file": file.iter().map(|r| json!([r.owner, r.ttl, r.kind.name()])).collect::<Vec<_>>(),
                "choices": ch.iter().map(|c| c.to_vec()).collect::<Vec<_>>()}),
     );
@@ -1423,6 +1588,10 @@ fn run_l2(sh: &Shared, lc: &LayoutCounters, n: usize, kinds: &[Kind], per_case_w
         let mut l = Local::default();
         let mut admissible = 0u64;
         let mut pruned = 0u64;
+        // API setups (files of <= 2 records, all records in plain style)
+        let plain_menu: Vec<[usize; 5]> = menu.iter().copied().filter(|c| c[4] == 0).collect();
+        for setup in 0..(if n <= 2 { 3 } else { 1 }) {
+        let menu: &Vec<[usize; 5]> = if setup == 0 { &menu } else { &plain_menu };
         // depth-first over records, pruning on the reference interpreter;
         // the text is built incrementally (one chunk per record)
         let expected: Vec<Vec<u8>> = file.iter().map(|r| rec_wire(&owner_labels(r.owner), r.kind.rtype(), 1, r.ttl, &rdata_wire(r.kind))).collect();
@@ -1464,24 +1633,28 @@ fn run_l2(sh: &Shared, lc: &LayoutCounters, n: usize, kinds: &[Kind], per_case_w
         }
         let mut leaf = |ch: &[[usize; 5]], text: &str| {
             if per_case_wd {
-                sh.wd.enter(|| json!({"part": "layout", "text": text, "expected_hex": expected.iter().map(|e| hex(e)).collect::<Vec<_>>()}));
+                sh.wd.enter(|| json!({"part": "layout", "text": text, "setup": setup, "expected_hex": expected.iter().map(|e| hex(e)).collect::<Vec<_>>()}));
             }
             admissible += 1;
             l.evals += 1;
             if n <= 2 && ch.iter().all(|c| c[4] == 0) {
                 l.nontrivial.push(fnv(text.as_bytes()));
             }
-            if let Some((class, what)) = layout_verdict(text, &expected) {
+            if setup != 0 {
+                l.bump(&format!("{label}.renderings.setup={}", SETUP_NAMES[setup]));
+            }
+            if let Some((class, what)) = layout_verdict_setup(text, &expected, setup) {
                 lc.failing.fetch_add(1, AO::Relaxed);
                 l.bump(&format!("{label}.failing.{class}"));
-                l2_report(sh, file, ch, &class, &what);
+                l2_report(sh, file, ch, setup, &class, &what);
             }
             if per_case_wd {
                 sh.wd.leave();
             }
         };
-        let mut text = String::from("$ORIGIN z.\n");
-        rec(0, file, &menu, &RefState::default(), &vec!["z"], &mut Vec::new(), &mut text, &mut pruned, &mut leaf);
+        let (st0, mut text) = l2_start(setup);
+        rec(0, file, menu, &st0, &vec!["z"], &mut Vec::new(), &mut text, &mut pruned, &mut leaf);
+        }
         lc.renderings.fetch_add(admissible, AO::Relaxed);
         lc.inadmissible.fetch_add(pruned, AO::Relaxed);
         l.counts.insert(format!("{label}.renderings"), admissible);
@@ -2022,6 +2195,269 @@ fn run_limits(sh: &Shared, per_case_wd: bool, only: Option<(usize, usize)>) -> (
     (total as u64, failures.len() as u64)
 }
 
+// ---------------- space Z: reader -> parsed::Zonefile -> ZoneBuilder -> Zone -------
+//
+// The continuation of the reader's result into a zone (the anchored
+// zonetree/parsed.rs): classification of the entries on insert, error
+// collection, conversion into a ZoneBuilder and the built zone.  Logical
+// files are an SOA at the apex followed by every sequence of <= k records
+// from a menu that reaches every arm of `insert` (apex NS, normal records,
+// a zone cut with glue and DS, a CNAME, a record next to the CNAME, an
+// out-of-zone record).  Oracle (metamorphic, C07's relation): every
+// rendering of a logical file - owner explicit absolute / relative /
+// inherited, class and TTL explicit / inherited, one line / parenthesised
+// with comment - has to give the same observable result as the canonical
+// rendering: the same error collection, or the same origin, class and
+// walked zone content; the route `Zonefile::new(z, IN)` + `set_origin` +
+// `insert` of every reader entry has to agree with `try_from`; no route
+// may panic.
+
+struct ZRec {
+    owner: Labels,
+    mnem: &'static str,
+    rd_abs: Vec<&'static str>,
+    rd_rel: Vec<&'static str>,
+}
+
+fn zone_menu() -> Vec<ZRec> {
+    let r = |owner: &[&'static str], mnem, rd_abs: &[&'static str], rd_rel: &[&'static str]| ZRec {
+        owner: owner.to_vec(),
+        mnem,
+        rd_abs: rd_abs.to_vec(),
+        rd_rel: rd_rel.to_vec(),
+    };
+    vec![
+        r(&["z"], "NS", &["ns.z."], &["ns"]),
+        r(&["a", "z"], "A", &["1.2.3.4"], &["1.2.3.4"]),
+        r(&["a", "z"], "TXT", &["\"x y\"", "\"z\""], &["x\\ y", "z"]),
+        r(&["a", "z"], "A", &["1.2.3.9"], &["1.2.3.9"]),
+        r(&["c", "z"], "NS", &["ns.c.z."], &["ns.c"]),
+        r(&["ns", "c", "z"], "A", &["192.0.2.53"], &["192.0.2.53"]),
+        r(&["c", "z"], "DS", &["1", "8", "2", "abcd"], &["1", "8", "2", "ab", "cd"]),
+        r(&["w", "z"], "CNAME", &["a.z."], &["a"]),
+        r(&["w", "z"], "A", &["1.2.3.5"], &["1.2.3.5"]),
+        r(&["x", "y"], "A", &["1.2.3.6"], &["1.2.3.6"]),
+    ]
+}
+
+/// [soa-owner(2), soa-style(2)] then per record [owner(3), class-ttl(2), style(2)]
+fn zone_text(menu: &[ZRec], seq: &[usize], soa: [usize; 2], ch: &[[usize; 3]]) -> Option<String> {
+    let origin: Labels = vec!["z"];
+    let mut st = RefState::default();
+    let mut text = String::from("$ORIGIN z.\n");
+    let apex: Labels = vec!["z"];
+    let lay = |style: usize, at: usize| match style {
+        0 => Layout { sep: 0, cont: None, end: 0 },
+        _ => Layout { sep: 1, cont: Some((1, at)), end: 4 },
+    };
+    // SOA
+    st.record(Some(&apex), Some(60), Some(1))?;
+    let toks: Vec<String> = [["z.", "@"][soa[0]], "IN", "60", "SOA", "ns.z.", "h.z.", "1", "60", "60", "60", "60"].iter().map(|s| s.to_string()).collect();
+    text.push_str(&render_line("", &toks, lay(soa[1], 5))?);
+    for (&ri, c) in seq.iter().zip(ch) {
+        let rec = &menu[ri];
+        let of = [OwnerForm::Abs, OwnerForm::Rel, OwnerForm::InhSpace][c[0]];
+        let (indent, owner_tok) = owner_text(&rec.owner, &origin, of)?;
+        let explicit = c[1] == 0;
+        let (o, t, cl) = st.record(owner_tok.as_ref().map(|_| &rec.owner), explicit.then_some(60), explicit.then_some(1))?;
+        if o != rec.owner || t != 60 || cl != 1 {
+            return None;
+        }
+        let mut toks: Vec<String> = Vec::new();
+        if let Some(o) = owner_tok {
+            toks.push(o);
+        }
+        if explicit {
+            toks.push("IN".into());
+            toks.push("60".into());
+        }
+        toks.push(rec.mnem.into());
+        let at = toks.len() - 1;
+        for d in if c[0] == 1 { &rec.rd_rel } else { &rec.rd_abs } {
+            toks.push(d.to_string());
+        }
+        text.push_str(&render_line(&indent, &toks, lay(c[2], at))?);
+    }
+    Some(text)
+}
+
+/// Everything observable of the route from the text to a zone.
+fn observe_zone(text: &str, route: usize) -> Result<String, String> {
+    guard(|| {
+        let bytes = text.as_bytes();
+        let parsed: Result<parsed::Zonefile, String> = if route == 0 {
+            parsed::Zonefile::try_from(reader_a(bytes)).map_err(|e| e.to_string())
+        } else {
+            let mut p = parsed::Zonefile::new(apex_z(), Class::IN);
+            p.set_origin(apex_z());
+            let mut errs = ZoneErrors::<RecordError>::default();
+            for res in reader_a(bytes) {
+                match res {
+                    Ok(Entry::Record(r)) => {
+                        let rec: StoredRecord = r.flatten_into();
+                        let name = rec.owner().clone();
+                        if let Err(e) = p.insert(rec) {
+                            errs.add_error(name, e);
+                        }
+                    }
+                    Ok(Entry::Include { .. }) => {}
+                    Err(e) => {
+                        errs.add_error(Name::root_bytes(), RecordError::MalformedRecord(e));
+                        break;
+                    }
+                }
+            }
+            if errs.is_empty() {
+                Ok(p)
+            } else {
+                Err(errs.to_string())
+            }
+        };
+        match parsed {
+            Err(e) => format!("parsed-error {e}"),
+            Ok(p) => {
+                let head = format!("origin={} class={}", p.origin().map(|n| n.to_string()).unwrap_or_default(), p.class().map(|c| c.to_string()).unwrap_or_default());
+                match ZoneBuilder::try_from(p) {
+                    Err(e) => format!("builder-error {head} {e}"),
+                    Ok(b) => {
+                        let zone = b.build();
+                        let out: Arc<Mutex<Vec<String>>> = Arc::new(Mutex::new(Vec::new()));
+                        let o2 = out.clone();
+                        zone.read().walk(Box::new(move |name, rrset, cut| {
+                            let mut data: Vec<String> = rrset.data().iter().map(|d| d.to_string()).collect();
+                            data.sort();
+                            o2.lock().unwrap().push(format!("{name} {} {} cut={cut} [{}]", rrset.rtype(), rrset.ttl().as_secs(), data.join(" | ")));
+                        }));
+                        let mut lines = out.lock().unwrap().clone();
+                        lines.sort();
+                        format!("zone {head} {}", lines.join(" ; "))
+                    }
+                }
+            }
+        }
+    })
+}
+
+fn zone_diff_class(a: &Result<String, String>, b: &Result<String, String>) -> Option<String> {
+    if a == b {
+        return None;
+    }
+    let stage = |r: &Result<String, String>| match r {
+        Err(p) => format!("panic:{}", norm_panic(p)),
+        Ok(s) => s.split(' ').next().unwrap_or("?").to_string(),
+    };
+    let (sa, sb) = (stage(a), stage(b));
+    Some(if sa == sb { format!("{sa}-differs") } else { format!("{sa}-vs-{sb}") })
+}
+
+fn run_zone(sh: &Shared, k: usize, per_case_wd: bool, only: Option<usize>) -> (u64, u64) {
+    let menu = zone_menu();
+    let mut seqs: Vec<Vec<usize>> = vec![vec![]];
+    for n in 1..=k {
+        product(&vec![menu.len(); n], |ix| seqs.push(ix.to_vec()));
+    }
+    let evals = AtomicU64::new(0);
+    let failing = AtomicU64::new(0);
+    let idx: Vec<usize> = (0..seqs.len()).filter(|i| only.map_or(true, |o| o == *i)).collect();
+    idx.par_iter().for_each(|&si| {
+        let seq = &seqs[si];
+        if !per_case_wd {
+            sh.wd.enter(|| json!({"part": "zone-chunk", "k": k, "seq_index": si}));
+        }
+        let mut l = Local::default();
+        let n = seq.len();
+        let canon_text = zone_text(&menu, seq, [0, 0], &vec![[0, 0, 0]; n]).expect("canonical rendering exists");
+        let canon = observe_zone(&canon_text, 0);
+        if let Ok(s) = &canon {
+            l.bump(&format!("zone.canonical.{}", s.split(' ').next().unwrap_or("?")));
+        }
+        let mut sizes = vec![2usize, 2];
+        for _ in 0..n {
+            sizes.extend_from_slice(&[3, 2, 2]);
+        }
+        let decode = |flat: &[usize]| -> ([usize; 2], Vec<[usize; 3]>) { ([flat[0], flat[1]], flat[2..].chunks(3).map(|c| [c[0], c[1], c[2]]).collect()) };
+        let check = |flat: &[usize], text: &str| -> Option<(String, String, String)> {
+            // (kind, class, what)
+            let o0 = observe_zone(text, 0);
+            if let Some(c) = zone_diff_class(&canon, &o0) {
+                return Some(("layout".into(), c, format!("canonical rendering gives {:?}, this rendering gives {:?}", canon, o0)));
+            }
+            let o1 = observe_zone(text, 1);
+            if let Some(c) = zone_diff_class(&o0, &o1) {
+                return Some(("insert-route".into(), c, format!("try_from gives {:?}, Zonefile::new + insert gives {:?}", o0, o1)));
+            }
+            let _ = flat;
+            None
+        };
+        product(&sizes, |flat| {
+            let (soa, ch) = decode(flat);
+            let text = match zone_text(&menu, seq, soa, &ch) {
+                Some(t) => t,
+                None => return,
+            };
+            if per_case_wd {
+                sh.wd.enter(|| json!({"part": "zone", "text": text, "canonical_text": canon_text}));
+            }
+            l.evals += 1;
+            if flat.iter().skip(2).all(|c| *c == 0) {
+                l.nontrivial.push(fnv(text.as_bytes()));
+            }
+            if let Some((kind, class, what)) = check(flat, &text) {
+                failing.fetch_add(1, AO::Relaxed);
+                l.bump(&format!("zone.failing.{kind}.{class}"));
+                // slot minimisation towards the canonical rendering
+                let mut cur = flat.to_vec();
+                loop {
+                    let mut changed = false;
+                    for i in 0..cur.len() {
+                        for v in 0..cur[i] {
+                            let mut t = cur.clone();
+                            t[i] = v;
+                            let (s2, c2) = decode(&t);
+                            if let Some(tx) = zone_text(&menu, seq, s2, &c2) {
+                                if check(&t, &tx).map(|x| (x.0, x.1)) == Some((kind.clone(), class.clone())) {
+                                    cur = t;
+                                    changed = true;
+                                    break;
+                                }
+                            }
+                        }
+                    }
+                    if !changed {
+                        break;
+                    }
+                }
+                let names = ["soa-owner", "soa-style", "owner", "class-ttl", "style"];
+                let vals: [&[&str]; 5] = [&["absolute", "at"], &["plain", "parens"], &["absolute", "relative", "inherited"], &["explicit", "inherited"], &["plain", "parens"]];
+                let mut slots = Vec::new();
+                for (i, v) in cur.iter().enumerate() {
+                    if *v != 0 {
+                        let (slot, rec) = if i < 2 { (i, "soa".to_string()) } else { (2 + (i - 2) % 3, menu[seq[(i - 2) / 3]].mnem.to_string()) };
+                        slots.push(format!("{rec}.{}={}", names[slot], vals[slot][*v]));
+                    }
+                }
+                slots.sort();
+                slots.dedup();
+                let sig = format!("C07|zone-route|{kind}|{class}|{}", slots.join(","));
+                if first_in_thread(&sig) {
+                    let (s2, c2) = decode(&cur);
+                    let min_text = zone_text(&menu, seq, s2, &c2).unwrap_or_default();
+                    sh.ctx.violation(&sig, &format!("{what}; minimal rendering {min_text:?}"), json!({"part": "zone", "text": text, "canonical_text": canon_text, "minimal_text": min_text, "signature": sig}));
+                }
+            }
+            if per_case_wd {
+                sh.wd.leave();
+            }
+        });
+        evals.fetch_add(l.evals, AO::Relaxed);
+        if !per_case_wd {
+            sh.wd.leave();
+        }
+        sh.absorb(l);
+    });
+    (evals.load(AO::Relaxed), failing.load(AO::Relaxed))
+}
+
 // ===================================================================
 // main
 // ===================================================================
@@ -2035,7 +2471,7 @@ fn kinds_from(v: &Value) -> Vec<Kind> {
 fn replay(sh: &Shared, lc: &LayoutCounters, case: &Value) {
     let part = case["part"].as_str().unwrap_or("");
     match part {
-        "bytes" | "tokens" => {
+        "bytes" | "bytes8" | "tokens" => {
             let prefix = case["prefix"].as_u64().unwrap_or(0) as usize;
             let items: Vec<u8> = case["items"].as_array().map(|a| a.iter().map(|x| x.as_u64().unwrap_or(0) as u8).collect()).unwrap_or_default();
             let wp = case["with_parsed"].as_bool().unwrap_or(false);
@@ -2050,9 +2486,13 @@ fn replay(sh: &Shared, lc: &LayoutCounters, case: &Value) {
             sh.wd.leave();
             sh.absorb(l);
         }
-        "bytes-chunk" | "tokens-chunk" => {
-            let p = if part == "tokens-chunk" { "tokens" } else { "bytes" };
-            let alphabet = if p == "tokens" { TOKENS.len() } else { ALPHA.len() };
+        "bytes-chunk" | "bytes8-chunk" | "tokens-chunk" => {
+            let p = part.strip_suffix("-chunk").unwrap_or("bytes");
+            let alphabet = match p {
+                "tokens" => TOKENS.len(),
+                "bytes8" => ALPHA8.len(),
+                _ => ALPHA.len(),
+            };
             let prefix = case["prefix"].as_u64().unwrap_or(0) as usize;
             let len = case["len"].as_u64().unwrap_or(0) as usize;
             let mut l = Local { part: p.to_string(), ..Default::default() };
@@ -2061,7 +2501,11 @@ fn replay(sh: &Shared, lc: &LayoutCounters, case: &Value) {
                 let mut kk = k;
                 for _ in 0..len {
                     let d = (kk % alphabet as u64) as u8;
-                    items.push(if p == "tokens" { d } else { ALPHA[d as usize] });
+                    items.push(match p {
+                        "tokens" => d,
+                        "bytes8" => ALPHA8[d as usize],
+                        _ => ALPHA[d as usize],
+                    });
                     kk /= alphabet as u64;
                 }
                 // per-case watchdog so that the hanging input is named
@@ -2077,9 +2521,10 @@ fn replay(sh: &Shared, lc: &LayoutCounters, case: &Value) {
             let expected: Vec<Vec<u8>> = case["expected_hex"].as_array().map(|a| a.iter().map(|h| unhex(h.as_str().unwrap_or(""))).collect()).unwrap_or_default();
             println!("rendering: {text:?}");
             sh.wd.enter(|| case.clone());
-            let out = guard(|| read_all(reader_a(text.as_bytes()), text.len() + 2));
-            println!("reader: {out:?}");
-            let v = layout_verdict(&text, &expected);
+            let setup = case["setup"].as_u64().unwrap_or(0) as usize;
+            let out = guard(|| read_all(reader_setup(text.as_bytes(), setup), text.len() + 2));
+            println!("reader (setup {}): {out:?}", SETUP_NAMES[setup.min(2)]);
+            let v = layout_verdict_setup(&text, &expected, setup);
             println!("verdict: {v:?}");
             sh.wd.leave();
             sh.stats.eval();
@@ -2112,8 +2557,8 @@ fn replay(sh: &Shared, lc: &LayoutCounters, case: &Value) {
                             a
                         })
                         .collect();
-                    if l2_render(&file, &ch).map(|r| r.text) == Some(text.clone()) {
-                        l2_report(sh, &file, &ch, &class, &what);
+                    if l2_render(&file, &ch, setup).map(|r| r.text) == Some(text.clone()) {
+                        l2_report(sh, &file, &ch, setup, &class, &what);
                     } else {
                         sh.ctx.violation(&format!("C07|layout|replay|{class}"), &what, case.clone());
                     }
@@ -2161,6 +2606,27 @@ fn replay(sh: &Shared, lc: &LayoutCounters, case: &Value) {
                 sh.ctx.violation(&sig, &what, case.clone());
             }
         }
+        "zone" => {
+            let text = case["text"].as_str().unwrap_or("").to_string();
+            let canon_text = case["canonical_text"].as_str().unwrap_or("").to_string();
+            sh.wd.enter(|| case.clone());
+            let canon = observe_zone(&canon_text, 0);
+            let o0 = observe_zone(&text, 0);
+            let o1 = observe_zone(&text, 1);
+            sh.wd.leave();
+            sh.stats.eval();
+            println!("canonical {canon_text:?}\n  -> {canon:?}\nrendering {text:?}\n  try_from -> {o0:?}\n  new+insert -> {o1:?}");
+            let v = zone_diff_class(&canon, &o0).map(|c| ("layout", c)).or_else(|| zone_diff_class(&o0, &o1).map(|c| ("insert-route", c)));
+            println!("verdict: {v:?}");
+            if let Some((kind, class)) = v {
+                let stored = case["signature"].as_str().unwrap_or("");
+                let sig = if stored.starts_with(&format!("C07|zone-route|{kind}|{class}|")) { stored.to_string() } else { format!("C07|zone-route|{kind}|{class}|replay") };
+                sh.ctx.violation(&sig, "zone route differs", case.clone());
+            }
+        }
+        "zone-chunk" => {
+            run_zone(sh, case["k"].as_u64().unwrap_or(1) as usize, true, Some(case["seq_index"].as_u64().unwrap_or(0) as usize));
+        }
         "limits-chunk" => {
             run_limits(sh, true, Some((case["from"].as_u64().unwrap_or(0) as usize, case["to"].as_u64().unwrap_or(0) as usize)));
         }
@@ -2173,6 +2639,7 @@ fn main() {
     let wd = Watchdog::start(ctx.clone(), Duration::from_secs(120), |d| {
         let part = d["part"].as_str().unwrap_or("?");
         let part = part.strip_suffix("-chunk").unwrap_or(part);
+        let part = if part == "zone" { "zone-route" } else { part };
         format!("C07|hang|{part}")
     });
     let sh = Shared { ctx: ctx.clone(), stats: Stats::new(), nontrivial: Mutex::new(Vec::new()), wd };
@@ -2180,8 +2647,10 @@ fn main() {
     let quick = ctx.quick();
 
     let (byte_len, tok_depth, parsed_tok_depth) = if quick { (5, 5, 3) } else { (6, 6, 4) };
+    let byte8_len = if quick { 5 } else { 6 };
 
     let (mut limits_cases, mut limits_failing) = (0u64, 0u64);
+    let (mut zone_cases, mut zone_failing) = (0u64, 0u64);
     if let Some(path) = &ctx.replay {
         let text = std::fs::read_to_string(path).expect("replay file");
         let v: Value = serde_json::from_str(&text).expect("replay json");
@@ -2190,9 +2659,11 @@ fn main() {
         // --- totality
         let t0 = std::time::Instant::now();
         let lap = |what: &str| eprintln!("[c07] {what} done at {:.1}s", t0.elapsed().as_secs_f64());
-        totality_space(&sh, "bytes", ALPHA.len(), byte_len, 4, 0..5);
+        totality_space(&sh, "bytes", Some(&ALPHA[..]), ALPHA.len(), byte_len, 4, &[0, 1, 2, 3, 4]);
         lap("bytes");
-        totality_space(&sh, "tokens", TOKENS.len(), tok_depth, parsed_tok_depth, 0..3);
+        totality_space(&sh, "bytes8", Some(&ALPHA8[..]), ALPHA8.len(), byte8_len, 3, &[0, 1, 3, 4, 5]);
+        lap("bytes8");
+        totality_space(&sh, "tokens", None, TOKENS.len(), tok_depth, parsed_tok_depth, &[0, 1, 2]);
         lap("tokens");
         // --- layout independence
         run_l1(&sh, &lc, false, None);
@@ -2209,6 +2680,10 @@ fn main() {
         limits_cases = n;
         limits_failing = f;
         lap("limits x spelling");
+        let (n, f) = run_zone(&sh, if quick { 2 } else { 3 }, false, None);
+        zone_cases = n;
+        zone_failing = f;
+        lap("zone route");
     }
 
     // samples
@@ -2218,7 +2693,7 @@ fn main() {
         sh.stats.sample(8, || json!({"part": "layout", "space": "L1", "text": r.text, "expected_hex": r.expected.iter().map(|e| hex(e)).collect::<Vec<_>>(), "verdict": format!("{:?}", layout_verdict(&r.text, &r.expected))}));
     }
     let f = [LRec { owner: 1, ttl: 60, kind: Kind::Txt }, LRec { owner: 1, ttl: 3600, kind: Kind::Mx }];
-    if let Some(r) = l2_render(&f, &[[0, 0, 1, 0, 2], [2, 0, 2, 4, 3]]) {
+    if let Some(r) = l2_render(&f, &[[0, 0, 1, 0, 2], [2, 0, 2, 4, 3]], 0) {
         sh.stats.sample(8, || json!({"part": "layout", "space": "L2", "text": r.text, "expected_hex": r.expected.iter().map(|e| hex(e)).collect::<Vec<_>>(), "verdict": format!("{:?}", layout_verdict(&r.text, &r.expected))}));
     }
 
@@ -2233,13 +2708,19 @@ fn main() {
         json!({
             "evaluations": sh.stats.evals(),
             "distinct_nontrivial": sh.stats.distinct_count(),
-            "rule": "distinct inputs (FNV-1a of the text) that are either a totality case in which the strict reader returned at least one entry from the enumerated body and then had to decide more (a further entry or an error), or a layout rendering in the base style (L1: separator=space,line-end=lf,no sentinel; L2 with <=2 records: all records in plain style), or a limits-x-spelling case (L3, all of them); the remaining renderings are counted in evaluations only",
+            "rule": "distinct inputs (FNV-1a of the text) that are either a totality case in which the strict reader returned at least one entry from the enumerated body and then had to decide more (a further entry or an error), or a layout rendering in the base style (L1: separator=space,line-end=lf,no sentinel; L2 with <=2 records: all records in plain style), a limits-x-spelling case (L3, all of them), or a zone-route rendering with all record slots canonical; the remaining renderings are counted in evaluations only",
             "exhaustive": ctx.replay.is_none(),
-            "bounds": {"byte_alphabet": String::from_utf8_lossy(ALPHA), "byte_len": byte_len, "token_menu": TOKENS, "token_depth": tok_depth,
-                       "parsed_try_from_depth": {"bytes": 4, "tokens": parsed_tok_depth}, "prefixes_bytes": PREFIXES, "prefixes_tokens": &PREFIXES[..3],
-                       "layout_L1": "3 owners x 6 data kinds, slots dollar-ttl(2) x owner(5) x class-ttl(5) x data-form(<=6) x separator(3) x continuation(1+4*gaps) x line-end(9) x sentinel(3)",
+            "bounds": {"byte_alphabet": String::from_utf8_lossy(ALPHA), "byte_len": byte_len,
+                       "byte8_alphabet_hex": hex(ALPHA8), "byte8_len": byte8_len, "byte8_prefixes": [PREFIXES[0], PREFIXES[1], PREFIXES[3], PREFIXES[4], PREFIXES[5]],
+                       "second_reader": "built by hash of the input through load / default+reserve+extend_from_slice x2 / From<&str> / new+BufMut::put_slice, always allow_invalid", "token_menu": TOKENS, "token_depth": tok_depth,
+                       "parsed_try_from_depth": {"bytes": 4, "tokens": parsed_tok_depth}, "prefixes_bytes": &PREFIXES[..5], "prefixes_tokens": &PREFIXES[..3],
+                       "layout_L1": "3 owners x 10 kinds (A, TXT, SOA, MX, TYPE65280, MX to origin, $INCLUDE, NSEC, NSEC3, SVCB), slots dollar-ttl(2) x owner(5) x class-ttl(5) x data-form(<=6) x separator(3) x continuation(1+4*gaps) x line-end(9) x sentinel(3)",
                        "limits_L3": "label length {1,62,63,64,65} x {plain, one \\DDD / \\X / escaped dot at every octet, all \\DDD} x label {alone,first,middle,last} x {relative,absolute} x {owner, MX exchange, SOA mname, SOA rname, $ORIGIN, $INCLUDE origin}; name wire length {254,255,256} x {4 long labels, 125 one-octet labels} x {relative,absolute} x {plain, all \\DDD, one \\DDD / \\X in first/middle/last label at first/last octet} x {owner, MX exchange, $ORIGIN, $INCLUDE origin}; character string length {0,1,254,255,256} x {unquoted, quoted} x {plain, all \\DDD, one \\DDD / \\X / space / escaped quote at every octet} x {TXT only/first/second string, HINFO cpu/os}; integers {0,max-1,max,max+1,max+10,next power of ten,10*max(,99999999999)} x {plain, 1 or 3 leading zeros} x {TTL after/before/without class, $TTL, SOA serial/refresh/retry/expire/minimum, MX preference, SSHFP algorithm/type}; TTL-typed fields use 2^31-1 as the largest value that must be accepted and 2^32 as the smallest that must be rejected",
+                       "zone_route_Z": if quick { "SOA + every sequence of <= 2 records from a 10-record menu (apex NS, A, TXT, second A, cut NS, glue A, DS, CNAME, A next to the CNAME, out-of-zone A); renderings SOA owner(2) x style(2), per record owner(3) x class-ttl(2) x style(2); routes try_from and new+set_origin+insert" } else { "SOA + every sequence of <= 3 records from a 10-record menu (apex NS, A, TXT, second A, cut NS, glue A, DS, CNAME, A next to the CNAME, out-of-zone A); renderings SOA owner(2) x style(2), per record owner(3) x class-ttl(2) x style(2); routes try_from and new+set_origin+insert" },
+                       "layout_L2_setup": "files of <= 2 records with all records in plain style are also read without the $ORIGIN line after set_origin(z.), and after set_origin(z.) + set_default_class(IN) (class may then be omitted from the first record on)",
                        "layout_L2": if quick { "files of 1 and 2 records over 3 owners x ttl{60,3600} x {A,TXT,SOA,MX,TYPE65280}; per record $TTL(3) x $ORIGIN-change(2, before record 2) x owner(3) x class-ttl(5) x style(4)" } else { "files of 1 and 2 records over 3 owners x ttl{60,3600} x {A,TXT,SOA,MX,TYPE65280} and of 3 records over 3 owners x ttl{60,3600} x {A,TXT}; per record $TTL(3) x $ORIGIN-change(2, before record 2) x owner(3) x class-ttl(5) x style(4)" }},
+            "zone_route_renderings": zone_cases,
+            "zone_route_failing": zone_failing,
             "limits_cases": limits_cases,
             "limits_failing_cases": limits_failing,
             "layout_renderings_parsed": lc.renderings.load(AO::Relaxed),
